@@ -63,3 +63,53 @@ Theorem C02_order : forall vs c (arm : vview -> list tok),
                end)].
 Proof. exact arms_in_declaration_order. Qed.
 Print Assumptions C02_order.
+
+(* the whole match body, in full generality (Lemmas/EnumBlock.v): the arms of the contributing variants in declaration order - a
+   ghost variant contributes nothing when converting FROM the counterpart, and nothing when converting INTO it unless it has a
+   default expression -, then the #[ghosts] arms in the order they are written, then the default case; for any variants, any
+   instructions on them, any conversion kind *)
+From O2o.Lemmas Require Import EnumBlock.
+
+Theorem C02_block : forall vs ghosts c (arm : vview -> list tok) (garm : ghost_data -> list tok),
+    (forall v, In v vs -> contributes c v = true -> render_enum_line v c = Ok (arm v)) ->
+    (forall g x, ghosts = Some g -> In x (sg_data g) -> render_enum_ghost_line x c = Ok (garm x)) ->
+    enum_init_block vs ghosts c =
+    Ok [brace (List.concat (map arm (filter (contributes c) vs)) ++
+               List.concat (map garm (match ghosts with Some g => sg_data g | None => [] end)) ++
+               default_arm vs ghosts c)].
+Proof. exact enum_block_structure. Qed.
+Print Assumptions C02_block.
+
+(* a #[ghosts] arm: `Src::<variant or destructuring pattern> => <expression>,` when converting from the counterpart, nothing otherwise *)
+Theorem C02_ghosts_arm : forall x c,
+    render_enum_ghost_line x c =
+    match gd_ident x with
+    | GMember (MIndex _) => Panic "17"
+    | GMember (MNamed ident) =>
+        if is_from (c_kind c) then Ok (c_src c ++ colon2 ++ [TIdent ident] ++ fatarrow ++ quote_action (gd_action x) None c ++ [comma]) else Ok []
+    | GDestr destr =>
+        if is_from (c_kind c) then Ok (c_src c ++ colon2 ++ destr ++ fatarrow ++ quote_action (gd_action x) None c ++ [comma]) else Ok []
+    end.
+Proof. exact ghosts_arm. Qed.
+Print Assumptions C02_ghosts_arm.
+
+(* a variant renamed by a variant-level instruction `#[map(W)] V ..` (no expression): converting from the counterpart matches the
+   counterpart's W and builds the own V; converting into it matches the own V and builds the counterpart's W; pattern and payload
+   are those of the plain arm *)
+Theorem C02_renamed_arm_from : forall v c mc w,
+    vv_attr v = Some (AField mc) -> mc_member mc = Some (MNamed w) -> mc_action mc = None ->
+    vv_lit v = None -> vv_pat v = None -> is_from (c_kind c) = true ->
+    render_enum_line v c =
+    (destr <- arm_destr v c ;; init <- arm_init v c ;;
+     Ok (c_src c ++ colon2 ++ [TIdent w] ++ destr ++ fatarrow ++ (c_dst c ++ colon2 ++ [TIdent (vv_ident v)]) ++ init ++ [comma])).
+Proof. exact renamed_arm_from. Qed.
+Print Assumptions C02_renamed_arm_from.
+
+Theorem C02_renamed_arm_into : forall v c mc w,
+    vv_attr v = Some (AField mc) -> mc_member mc = Some (MNamed w) -> mc_action mc = None ->
+    vv_lit v = None -> vv_pat v = None -> is_intoish (c_kind c) = true ->
+    render_enum_line v c =
+    (destr <- arm_destr v c ;; init <- arm_init v c ;;
+     Ok ((c_src c ++ colon2 ++ [TIdent (vv_ident v)]) ++ destr ++ fatarrow ++ (c_dst c ++ colon2) ++ TIdent w :: init ++ [comma])).
+Proof. exact renamed_arm_into. Qed.
+Print Assumptions C02_renamed_arm_into.
